@@ -149,9 +149,9 @@ func versionTemplates(eco, size string) []string {
 		m = expandAll("{d}(|.{d}|.{d}.{d})(|-{a}{a}|-{a}{a}{a}|-{d}|.{a}{a}{a}{a}{a}|-{a}{a}{d}|-{a}{a}-{d}|-{a}{d}|-{a}{a}{a}{a}{a}{a}{a}{a})", "{d}{d}.{d}{d}", "{d}.0.0", "{d}-{a}{a}{a}{a}{d}")
 		l = expandAll("{d}(|.{d}|.{d}.{d}|.{d}.{d}.{d})(|-{a}{a}|-{a}{a}{a}|-{d}|.{d}{d}|.{a}{a}{a}{a}{a}|-{a}{a}{d}|-{a}{a}-{d}|-{a}{a}.{d}|-{a}{d}|-{a}|.{a}|-{a}{a}{a}{a}{a}{a}{a}{a}|-{a}{a}{a}{a}{a}{a}{a}{a}{a}|-{a}{a}{a}{a}{d}|-{a}{a}{a}{a}{a}-{d})", "{d}{d}.{d}{d}", "{d}.0.0", "0{d}.0{d}", "{d}-{a}{a}-{a}{a}")
 	case "gem":
-		s = expandAll("{d}", "{d}.{d}", "{d}.{d}.{d}", "{d}.{d}.{l}{l}{d}", "{d}.{d}-{l}{l}", "{d}.{d}.{l}", "{d}.{d}.{d}.{l}{l}.{d}", "{d}{d}.{d}")
-		m = expandAll("(|v){d}(|.{d}|.{d}.{d}|.{d}.{d}.{d})(|.{l}{l}{d}|.{l}{l}|-{l}{l}|.{l}|.{l}{l}.{d}|-{l}{l}.{d}|-{d}|.{l}{l}{l}{l}{d})", "{d}{d}.{d}{d}", "{d}.0", "{d}.{d}.0.0")
-		l = expandAll("(|v){d}(|.{d}|.{d}.{d}|.{d}.{d}.{d})(|.{a}{a}{d}|.{a}{a}|-{a}{a}|.{a}|.{a}{a}.{d}|-{a}{a}.{d}|-{d}|.{a}{a}{a}{a}{d}|.{a}{d}.{a}{d}|-{a}{a}-{a}|.{a}{a}{a}{d}{d}|+{n})", "{d}{d}.{d}{d}", "{d}.0", "{d}.{d}.0.0", "0{d}.0{d}")
+		s = expandAll("{d}", "{d}.{d}", "{d}.{d}.{d}", "{d}.{d}.{l}{l}{d}", "{d}.{d}-{l}{l}", "{d}.{d}.{l}", "{d}.{d}.{d}.{l}{l}{d}.{l}", "{d}{d}.{d}")
+		m = expandAll("(|v){d}(|.{d}|.{d}.{d}|.{d}.{d}.{d})(|.{l}{l}{d}|.{l}{l}|-{l}{l}|.{l}|.{l}{l}{d}.{l}|-{l}{l}.{d}|-{d}|.{l}{l}{l}{l}{d})", "{d}{d}.{d}{d}", "{d}.0", "{d}.{d}.0.0")
+		l = expandAll("(|v){d}(|.{d}|.{d}.{d}|.{d}.{d}.{d})(|.{a}{a}{d}|.{a}{a}|-{a}{a}|.{a}|.{a}{a}{d}.{a}|-{a}{a}.{d}|-{d}|.{a}{a}{a}{a}{d}|.{a}{d}.{a}{d}|-{a}{a}-{a}|.{a}{a}{a}{d}{d}|+{n})", "{d}{d}.{d}{d}", "{d}.0", "{d}.{d}.0.0", "0{d}.0{d}")
 	case "alpine":
 		s = expandAll("{d}", "{d}.{d}", "{d}.{d}{l}", "{d}.{d}_{l}{l}{d}", "{d}.{d}_{l}", "{d}.{d}-r{d}", "{d}.{d}.{d}", "{d}.{d}_{l}{l}{l}")
 		m = expandAll("{d}(|.{d}|.{d}.{d})(|{l})(|_{l}{l}{d}|_{l}|_{l}{l}|_{l}{l}{l}|_{l}{l}{l}{d}|_{l}{l}{l}{l}{d}|_{l}{l}{l}{l}{l}|_{l}{l}_{l})(|-r{d})", "{d}{d}.{d}{d}", "{d}.{d}~{h}{h}")
